@@ -41,6 +41,21 @@ fn healthy_history(run: &Run, case: u64) {
             }
             run.count("healthy_validations", 1);
             let replay = json!({"healthy": true, "case": case, "step": step, "history": descs});
+            // ... nor does a stale GC_LOCK make a healthy archive unhealthy
+            if v.clean() && step % 4 == 1 {
+                std::fs::write(w.arch.join("GC_LOCK"), b"{}\n").unwrap();
+                let vl = cs::validate(cs::local(&w.arch), quick);
+                std::fs::remove_file(w.arch.join("GC_LOCK")).unwrap();
+                run.count("healthy_validations_with_a_stale_gc_lock", 1);
+                if vl.panic.is_some() || !vl.clean() {
+                    run.violation(
+                        format!("false-alarm-on-healthy-archive-with-gc-lock-present:{}", if quick { "quick" } else { "full" }),
+                        format!("after {}: with a GC_LOCK file present validate reported {}", rep.desc, vl.describe()),
+                        replay,
+                    );
+                    return;
+                }
+            }
             if let Some(p) = &v.panic {
                 run.violation(format!("validate-panic:{}", panic_site(p)), format!("after {}: {p}", rep.desc), replay);
                 return;
@@ -122,6 +137,29 @@ fn one_damage(run: &Run, s: &Subject, base_errors: &std::collections::BTreeMap<u
             );
         } else {
             run.count("harmful_damages_reported_by_full_validate", 1);
+            // a GC_LOCK left behind by a collector that was killed (or one at work) does not make
+            // the damage any less reportable
+            if crate::rng::fnv(d.desc().as_bytes()) % 3 == 0 {
+                std::fs::write(arch.join("GC_LOCK"), b"{}\n").unwrap();
+                let quick_too = d.action == Action::Delete;
+                for quick in [false, true] {
+                    if quick && !quick_too {
+                        continue;
+                    }
+                    let v = cs::validate(cs::local(&arch), quick);
+                    run.count("harmful_damages_validated_with_a_stale_gc_lock", 1);
+                    if v.panic.is_none() && v.clean() {
+                        run.violation(
+                            format!("validate-silent-on-harmful-damage-with-gc-lock-present:{}", d.class()),
+                            format!("{}: {why}; reported without GC_LOCK, but with a GC_LOCK file present {} validation reported nothing", d.desc(), if quick { "quick" } else { "full" }),
+                            replay.clone(),
+                        );
+                        crate::scratch::rm(&arch);
+                        return;
+                    }
+                }
+                std::fs::remove_file(arch.join("GC_LOCK")).unwrap();
+            }
             if d.action == Action::Delete {
                 let q = cs::validate(cs::local(&arch), true);
                 if q.panic.is_none() && q.clean() {
@@ -250,10 +288,10 @@ pub fn run(tier: Tier, replay: Option<Value>) -> i32 {
         }
     }
     let needs: &[(&str, u64)] = if replay.is_some() { &[] } else {
-        &[("healthy_validations", 100), ("healthy_states_with_interrupted_band", 3), ("damages_applied", 200), ("harmful_damages", 50), ("harmless_damages", 5), ("large_healthy_archives", 2), ("healthy_archives_with_a_block_above_the_block_size", 1)]
+        &[("healthy_validations", 100), ("healthy_states_with_interrupted_band", 3), ("damages_applied", 200), ("harmful_damages", 50), ("harmless_damages", 5), ("large_healthy_archives", 2), ("harmful_damages_validated_with_a_stale_gc_lock", 20), ("healthy_archives_with_a_block_above_the_block_size", 1)]
     };
     run.finish(
-        "two large healthy archives (default options: 21 files of 1 000 000 bytes, i.e. a combined block above the 20 MiB block size, plus a file of more than one block; 300 one-file blocks) validated fully and quickly on both runtime flavours; (every third healthy history and every second damaged archive is validated on a 4-worker multi-thread runtime) healthy side: histories as in C02 (completed and interrupted-with-header backups, deletes, gcs; states with a head-less band directory skipped); after every archive-changing step full and quick validation must return Ok and report nothing. Damage side: archives with 2-4 bands (complete, interrupted in the middle, interrupted newest) sharing blocks; EVERY file except CONSERVE x {delete (not for BANDTAIL), truncate to 0, truncate to half, overwrite with seeded garbage} and 8 seeded bit flips per block; a damage is harmful when some version's restore by id fails, reports (more) errors or differs from its pre-damage result (interrupted versions with a header included; only the vanished or emptied last hunk of an interrupted band is exempt, because that state is exactly what an interruption leaves); every harmful damage must make full validation report >= 1 error, and every harmful deletion quick validation too. Distinct = (archive, damaged file, action) that is harmful.",
+        "a third of the harmful damages (and a quarter of the healthy states) are validated once more with a GC_LOCK file left in the archive: the verdicts must not change; two large healthy archives (default options: 21 files of 1 000 000 bytes, i.e. a combined block above the 20 MiB block size, plus a file of more than one block; 300 one-file blocks) validated fully and quickly on both runtime flavours; (every third healthy history and every second damaged archive is validated on a 4-worker multi-thread runtime) healthy side: histories as in C02 (completed and interrupted-with-header backups, deletes, gcs; states with a head-less band directory skipped); after every archive-changing step full and quick validation must return Ok and report nothing. Damage side: archives with 2-4 bands (complete, interrupted in the middle, interrupted newest) sharing blocks; EVERY file except CONSERVE x {delete (not for BANDTAIL), truncate to 0, truncate to half, overwrite with seeded garbage} and 8 seeded bit flips per block; a damage is harmful when some version's restore by id fails, reports (more) errors or differs from its pre-damage result (interrupted versions with a header included; only the vanished or emptied last hunk of an interrupted band is exempt, because that state is exactly what an interruption leaves); every harmful damage must make full validation report >= 1 error, and every harmful deletion quick validation too. Distinct = (archive, damaged file, action) that is harmful.",
         &["the last hunk of an incomplete band can vanish without any format-level trace: exempt", "E1 walker decides 'restores exactly'"],
         Some(true),
         needs,
